@@ -21,19 +21,27 @@ def load (rated p : Rat) : Rat := rabs p / rated
 /-- `_get_power_input_and_load_from_output`: the forward formula. -/
 def fwd (η : Rat → Rat) (rated out : Rat) : Rat := out / effHat η (load rated out)
 
+/-- `_get_power_output_and_load_from_input` without strict balance: the raw interpolant `inv`
+limited to the magnitude of its argument (`np.clip(inv v, -|v|, |v|)`, the repair of D27: the raw
+PCHIP value overshoots where the efficiency reaches 100 %). -/
+def invC (inv : Rat → Rat) (v : Rat) : Rat := clamp (-rabs v) (rabs v) (inv v)
+
+/-- The same conversion as found (before D27): the raw interpolant. -/
+def invLegacy (inv : Rat → Rat) (v : Rat) : Rat := inv v
+
 /-- `get_power_input_from_bidirectional_output` for a scalar (`>= 0` takes the forward formula,
 reverse flow the interpolated inverse). -/
 def inFromOut (η inv : Rat → Rat) (rated out : Rat) : Rat :=
-  if 0 ≤ out then fwd η rated out else inv out
+  if 0 ≤ out then fwd η rated out else invC inv out
 
 /-- … and for an array element (`> 0` mask; the rest, including 0, the inverse). -/
 def inFromOutArr (η inv : Rat → Rat) (rated out : Rat) : Rat :=
-  if 0 < out then fwd η rated out else inv out
+  if 0 < out then fwd η rated out else invC inv out
 
 /-- `get_power_output_from_bidirectional_input` (scalar and array agree: `> 0` takes the
 inverse, the rest the forward formula). -/
 def outFromIn (η inv : Rat → Rat) (rated inp : Rat) : Rat :=
-  if 0 < inp then inv inp else fwd η rated inp
+  if 0 < inp then invC inv inp else fwd η rated inp
 
 /-- The samples the inverse interpolant is built from: `arange(-rated, rated, rated/100)`. -/
 def knotOut (rated : Rat) (k : Nat) : Rat := -rated + k * (rated / 100)
